@@ -418,9 +418,10 @@ Definition run_handler (h : handler) (s : est) (arg : Z) (data : str) : eres :=
   end.
 
 (* KeyProcessor._call_handler around a handler that does not touch
-   key_processor.arg: EditReadOnlyBuffer is swallowed (and then the cursor fix
-   is skipped), any other exception escapes; temporary navigation mode is left
-   when no operator is pending (self.arg is None after these handlers) *)
+   key_processor.arg: EditReadOnlyBuffer is swallowed and the cursor fix is
+   applied on that path too (fix aacfec4), any other exception escapes;
+   temporary navigation mode is left when no operator is pending (self.arg is
+   None after these handlers) *)
 Definition call_handler (h : handler) (s : est) (arg : Z) (data : str) : eres :=
   let was_temp := vtemp s in
   let leave (s1 : est) : est :=
@@ -428,7 +429,7 @@ Definition call_handler (h : handler) (s : est) (arg : Z) (data : str) : eres :=
     then with_vi s1 (vmode s1) (vop s1) (voparg s1) (vdig s1) false else s1 in
   match run_handler h s arg data with
   | EOk s1 => EOk (leave (fix_vi_cursor_position s1))
-  | EErr c s1 => if c =? E_READONLY then EOk (leave s1) else EErr c s1
+  | EErr c s1 => if c =? E_READONLY then EOk (leave (fix_vi_cursor_position s1)) else EErr c s1
   end.
 
 (* accept-line -> Buffer.validate_and_handle -> PromptSession's accept handler:
